@@ -111,6 +111,7 @@ type Exec struct {
 	Samples   []string
 	concrete  map[string]string // fixed nondet values (selftest / concrete mode)
 	PanicsAreViolations bool
+	BudgetAsViolation   bool
 	Summaries map[*ssa.Function]*ssa.Function
 }
 
